@@ -94,12 +94,24 @@ pub fn substitute(prog: &[GOp], pool: &Pool) -> Vec<GOp> {
         .collect()
 }
 
-fn synth_shape(prog: &[GOp], setup: bool, ctx: &mut Ctx) -> Result<(u64, usize, usize, usize), Failure> {
+/// `Ok(None)`: the run could not be completed because the prover had no consistent witness
+/// (a step whose native counterpart fails came earlier, e.g. an invalid encoding was decoded,
+/// and a later gadget could not compute its witness values from the garbage): such value
+/// assignments are outside "every input value" and are excluded, not compared.
+fn synth_shape(prog: &[GOp], setup: bool, ctx: &mut Ctx) -> Result<Option<(u64, usize, usize, usize)>, Failure> {
     let mut m = Machine::new(Run::Shape, setup);
     for op in prog {
-        let _ = m.step(op, ctx)?;
+        match m.step(op, ctx) {
+            Ok(_) => {}
+            Err(f) => {
+                if m.expect_unsat.is_some() && !setup {
+                    return Ok(None);
+                }
+                return Err(f);
+            }
+        }
     }
-    shape_digest(&m.cs).map_err(|e| Failure { signature: "C15|shape|matrices".into(), message: e })
+    shape_digest(&m.cs).map(Some).map_err(|e| Failure { signature: "C15|shape|matrices".into(), message: e })
 }
 
 fn shape_case(prog: &[GOp], pool: &Pool, ctx: &mut Ctx) -> Result<(), Failure> {
@@ -108,7 +120,14 @@ fn shape_case(prog: &[GOp], pool: &Pool, ctx: &mut Ctx) -> Result<(), Failure> {
     let mut first: Option<(&str, (u64, usize, usize, usize))> = None;
     for (name, p, setup) in runs {
         ctx.sub_eval();
-        let d = synth_shape(p, setup, ctx)?;
+        let d = match synth_shape(p, setup, ctx)? {
+            Some(d) => d,
+            None => {
+                ctx.excluded();
+                ctx.class("shape:prove-run-without-consistent-witness(excluded)");
+                continue;
+            }
+        };
         match &first {
             None => first = Some((name, d)),
             Some((n0, d0)) => {
